@@ -51,6 +51,7 @@ ASSUMPTIONS = ['header names exclude the characters for which C04 records '
 WRAPBIN = os.path.join(VERIF, 'tools', 'wrapbin')
 KF_SOURCE = 'inc/cannot-proceed/renamed-source-after-failed-compile'
 PCH = 'pch.h'
+EXT = '../ext/xe.h'      # header outside the source and build trees
 OBJ_NAMES = ['obj{}', 'my obj{}', 'o$bj{}', 'o#bj{}', 'od ir/obj{}']
 HEADER_NAMES = ['h1.h', 'my hdr.h', 'h#2.h', 'h$3.h', 'inc/h4.h', 'h+5.h',
                 'h@6.h', 'inc/sub dir/h7.h', 'h8.hpp', 'h-9.h']
@@ -79,6 +80,7 @@ class IncMachine(RuleBasedStateMachine):
         self.nbuilds = 0
         self.gen = set()         # units whose source is itself generated
         self.pch = None          # header precompiled and force-included
+        self.ext = False         # a header directory outside both trees
         self.objnames = None     # explicit object names
         self.nontrivial = False
         self.header_edit_after_build = False
@@ -126,11 +128,17 @@ class IncMachine(RuleBasedStateMachine):
         for h in self.includes.get(f, []):
             if h == self.pch and not isheader:
                 continue         # reaches the unit through pch= only
+            if h == EXT:
+                # found through the include directory given by absolute path
+                L.append('#include "{}"'.format(posixpath.basename(h)))
+                continue
             rel = posixpath.relpath(h, posixpath.dirname(f) or '.')
             L.append('#include "{}"'.format(rel))
         calls = ''.join(' + hv_{}()'.format(self.ident(h))
                         for h in self.includes.get(f, []))
         if isheader:
+            if f in self.broken:
+                L.append('#error deliberately broken')
             L.append('static inline int hv_{}(void) {{ return {}{}; }}'
                      .format(self.ident(f), self.ver[f], calls))
             L.append('#endif')
@@ -188,6 +196,16 @@ class IncMachine(RuleBasedStateMachine):
             # the last unit is produced by a build step (a copy of a
             # template) and compiled from the build directory
             self.gen = {self.tus[-1]}
+        if data.draw(st.integers(0, 2)) == 0:
+            # a header in a directory outside the source and build trees,
+            # named to the build by absolute path
+            self.ext = True
+            self.ver[EXT] = 7000
+            self.includes[EXT] = []
+            users = data.draw(st.lists(st.sampled_from(self.tus), min_size=1,
+                                       unique=True))
+            for t in users:
+                self.includes[t] = self.includes[t] + [EXT]
         self.objnames = [data.draw(st.sampled_from(OBJ_NAMES)).format(i)
                          for i in range(ntu)]
         if data.draw(st.integers(0, 2)) == 0:
@@ -202,10 +220,11 @@ class IncMachine(RuleBasedStateMachine):
             raise HarnessError('configure failed: ' + r.err[-800:])
         self.history.append(['setup', list(self.tus),
                              {h: self.includes[h] for h in headers +
-                              ([PCH] if self.pch else [])},
+                              ([PCH] if self.pch else []) +
+                              ([EXT] if self.ext else [])},
                              {t: self.includes[t] for t in self.tus},
                              {'pch': self.pch, 'objnames': self.objnames,
-                              'gen': sorted(self.gen)}])
+                              'gen': sorted(self.gen), 'ext': self.ext}])
 
     def write_main_and_script(self):
         n = len(self.tus)
@@ -225,17 +244,22 @@ class IncMachine(RuleBasedStateMachine):
             L.append('pch = precompiled_header(file={!r})'.format(self.pch))
             kw = ', pch=pch'
         names = self.objnames or ['obj{}'.format(i) for i in range(n)]
+        extinc = extlist = ''
+        if self.ext:
+            L.append('ext = header_directory({!r})'.format(
+                os.path.join(self.tmp, 'ext')))
+            extinc, extlist = ', includes=[ext]', ', ext'
         for i, t in enumerate(self.tus):
             if t in self.gen:
                 L.append("g{0} = build_step({1!r}, cmd=['cp', build_step.input, "
                          "build_step.output], files=[{2!r}])".format(
                              i, 'g_' + t, t + '.in'))
                 L.append("o{} = object_file({!r}, file=g{}, includes=["
-                         "header_directory('.')]{})".format(i, names[i], i,
-                                                           kw))
+                         "header_directory('.'){}]{})".format(
+                             i, names[i], i, extlist, kw))
             else:
-                L.append("o{} = object_file({!r}, file={!r}{})".format(
-                    i, names[i], t, kw))
+                L.append("o{} = object_file({!r}, file={!r}{}{})".format(
+                    i, names[i], t, extinc, kw))
         L.append("executable('prog', ['main.c'] + [{}])".format(
             ', '.join('o{}'.format(i) for i in range(n))))
         b = os.path.join(self.src, 'build.bfg')
@@ -247,7 +271,14 @@ class IncMachine(RuleBasedStateMachine):
         return [f for f in self.ver if f not in self.tus]
 
     def removable_headers(self):
-        return [f for f in self.headers() if f != self.pch]
+        return [f for f in self.headers()
+                if f != self.pch and f != EXT and f not in self.broken]
+
+    def eff_broken(self):
+        """Units that cannot compile: broken themselves or through a broken
+        header in their include closure."""
+        return {t for t in self.tus
+                if t in self.broken or self.closure(t) & self.broken}
 
     @rule(data=st.data(), suffix=st.sampled_from(['_v2', '_new', '2']))
     def rename_source(self, data, suffix):
@@ -304,7 +335,8 @@ class IncMachine(RuleBasedStateMachine):
         if not cands:
             return
         h = data.draw(st.sampled_from(cands))
-        user = data.draw(st.sampled_from(self.tus + self.headers()))
+        user = data.draw(st.sampled_from(
+            self.tus + [x for x in self.headers() if x != EXT]))
         self.counter += 1
         self.ver[h] = 1000 * self.counter + 7
         self.includes[h] = []
@@ -363,6 +395,22 @@ class IncMachine(RuleBasedStateMachine):
             self.history.append(['break_source', t])
         self.write(t)
 
+    @precondition(lambda self: self.headers())
+    @rule(data=st.data())
+    def break_header(self, data):
+        """A header that does not compile (and its later repair): every unit
+        that includes it fails without having been touched itself."""
+        h = data.draw(st.sampled_from(self.headers()))
+        if h in self.broken:
+            self.broken.discard(h)
+            self.history.append(['repair_header', h])
+        else:
+            self.broken.add(h)
+            self.history.append(['break_header', h])
+        self.write(h)
+        if self.nbuilds:
+            self.header_edit_after_build = True
+
     def _log(self, n):
         return os.path.join(self.tmp, 'cc.log.{}'.format(n))
 
@@ -416,10 +464,11 @@ class IncMachine(RuleBasedStateMachine):
             self._fail('inc/cannot-proceed/no-rule', 'the build cannot '
                        'proceed after {}: {}'.format(
                            [h for h in self.history[-6:]], text[-600:]))
-        if self.broken:
+        broken = self.eff_broken()
+        if broken:
             if r.rc == 0:
                 self._fail('inc/broken-built', 'sources {} contain #error but '
-                           'the build succeeded'.format(sorted(self.broken)))
+                           'the build succeeded'.format(sorted(broken)))
             if 'deliberately broken' not in text:
                 self._fail('inc/cannot-proceed', 'build failed for another '
                            'reason than the broken source: ' + text[-700:])
@@ -434,7 +483,7 @@ class IncMachine(RuleBasedStateMachine):
             self._fail('inc/compiled-twice', '{} compiled twice in one build'
                        .format(sorted(dup)))
         got = set(compiled)
-        missing = {t for t in expect - got if t not in self.broken}
+        missing = {t for t in expect - got if t not in broken}
         # with -k a broken TU is attempted (and fails); others must still be
         # compiled when due
         spurious = got - expect
@@ -446,14 +495,14 @@ class IncMachine(RuleBasedStateMachine):
             self._fail('inc/needless-recompile', '{} recompiled although '
                        'nothing they include changed'.format(
                            sorted(spurious)))
-        self.failed_compile = {t for t in got if t in self.broken}
+        self.failed_compile = {t for t in got if t in broken}
         for t in got | {'main.c'}:
             if t in self.tus:
-                if t not in self.broken:
+                if t not in broken:
                     self.built_closure[t] = self.snapshot(t)
             else:
                 self.built_closure[t] = True
-        if not self.broken:
+        if not broken:
             p = subprocess.run([os.path.join(self.bld, 'prog')], env={},
                                stdout=subprocess.PIPE, stderr=subprocess.PIPE)
             want = ''.join('tu{}={}\n'.format(i, self.value(t))
@@ -490,6 +539,8 @@ class IncMachine(RuleBasedStateMachine):
                 extra.add('precompiled-header')
             if self.gen:
                 extra.add('generated-unit')
+            if self.ext:
+                extra.add('external-header-directory')
             if any(n != 'obj{}'.format(i)
                    for i, n in enumerate(self.objnames or [])):
                 extra.add('special-object-name')
@@ -536,6 +587,7 @@ def replay(task, case, rec):
                 if len(h) > 4:
                     m.pch, m.objnames = h[4]['pch'], h[4]['objnames']
                     m.gen = set(h[4].get('gen', []))
+                    m.ext = bool(h[4].get('ext'))
                 os.makedirs(m.src)
                 m.clock = sandbox.Clock(m.tmp)
                 m.tus = list(tus)
@@ -599,8 +651,9 @@ def replay(task, case, rec):
                 os.unlink(os.path.join(m.src, old))
                 m.write(new)
                 m.write_main_and_script()
-            elif op in ('break_source', 'repair_source'):
-                if op == 'break_source':
+            elif op in ('break_source', 'repair_source', 'break_header',
+                        'repair_header'):
+                if op.startswith('break_'):
                     m.broken.add(h[1])
                 else:
                     m.broken.discard(h[1])
@@ -638,6 +691,19 @@ def _run_scale(rec, seed, budget, shard, nshards, sizes):
                 ['build'], ['modify_header', 'h1.h'], ['build'],
                 ['modify_header', 'inc/h4.h'], ['build'],
                 ['modify_header', 'pch.h'], ['build'], ['build']]})
+        # a header in a directory named by absolute path changes; a header
+        # stops compiling for one build and is repaired
+        core.append({'backend': backend, 'compiler': compiler, 'history': [
+            ['setup', ['t0.c', 't1.c'],
+             {'h1.h': [], 'inc/h4.h': ['h1.h'], EXT: []},
+             {'t0.c': ['h1.h', EXT], 't1.c': ['inc/h4.h']},
+             {'pch': None, 'objnames': ['obj0', 'obj1'], 'gen': [],
+              'ext': True}],
+            ['build'], ['modify_header', EXT], ['build'],
+            ['break_header', 'h1.h'], ['build'], ['build'],
+            ['repair_header', 'h1.h'], ['build'],
+            ['break_header', 'inc/h4.h'], ['build'],
+            ['repair_header', 'inc/h4.h'], ['build'], ['build']]})
     for k, case in enumerate(core):
         if k % nshards != shard:
             continue
